@@ -13,6 +13,9 @@ import (
 
 	"mosn.io/api"
 	"mosn.io/mosn/pkg/protocol/xprotocol"
+	"mosn.io/mosn/pkg/protocol/xprotocol/bolt"
+	"mosn.io/mosn/pkg/protocol/xprotocol/dubbo"
+	"mosn.io/mosn/pkg/protocol/xprotocol/tars"
 	sx "mosn.io/mosn/pkg/stream/xprotocol"
 	"mosn.io/pkg/buffer"
 )
@@ -52,7 +55,7 @@ func (f *ppFrame) GetStreamType() api.StreamType {
 type ppProto struct {
 	mode api.PoolMode
 	name api.ProtocolName
-	// id generation: 32-bit wrap like bolt (uint32 of the 64-bit counter)
+	gen  func(*uint64) uint64 // GenerateRequestID of a REAL protocol (bolt / tars / dubbo); nil: bolt's formula
 }
 
 func (p *ppProto) Name() api.ProtocolName { return p.name }
@@ -86,23 +89,34 @@ func (p *ppProto) Mapping(httpStatusCode uint32) uint32 { return httpStatusCode 
 func (p *ppProto) PoolMode() api.PoolMode               { return p.mode }
 func (p *ppProto) EnableWorkerPool() bool               { return false }
 func (p *ppProto) GenerateRequestID(streamID *uint64) uint64 {
+	if p.gen != nil {
+		return p.gen(streamID)
+	}
 	return uint64(uint32(atomic.AddUint64(streamID, 1)))
 }
 
 type ppCodec struct {
 	name api.ProtocolName
 	mode api.PoolMode
+	gen  func(*uint64) uint64
 }
 
 func (c *ppCodec) ProtocolName() api.ProtocolName { return c.name }
 func (c *ppCodec) NewXProtocol(ctx context.Context) api.XProtocol {
-	return &ppProto{mode: c.mode, name: c.name}
+	return &ppProto{mode: c.mode, name: c.name, gen: c.gen}
 }
 func (c *ppCodec) ProtocolMatch() api.ProtocolMatch { return nil }
 func (c *ppCodec) HTTPMapping() api.HTTPMapping     { return nil }
 
 var ppCodecInst = &ppCodec{name: "vhpp", mode: api.PingPong}
 var mxCodecInst = &ppCodec{name: "vhmx", mode: api.Multiplex}
+
+// multiplex test codecs whose id generator IS the real protocol's GenerateRequestID
+var genCodecs = map[string]*ppCodec{
+	"GenU32": {name: "vhx-u32", mode: api.Multiplex, gen: (&bolt.XCodec{}).NewXProtocol(context.Background()).GenerateRequestID},
+	"GenS32": {name: "vhx-s32", mode: api.Multiplex, gen: (&tars.XCodec{}).NewXProtocol(context.Background()).GenerateRequestID},
+	"GenU64": {name: "vhx-u64", mode: api.Multiplex, gen: (&dubbo.XCodec{}).NewXProtocol(context.Background()).GenerateRequestID},
+}
 
 var registerOnce sync.Once
 
@@ -115,6 +129,14 @@ func registerProtocols() {
 			panic(err)
 		}
 		if err := xprotocol.RegisterXProtocolCodec(mxCodecInst); err != nil {
+			panic(err)
+		}
+		for _, c := range genCodecs {
+			if err := xprotocol.RegisterXProtocolCodec(c); err != nil {
+				panic(err)
+			}
+		}
+		if err := xprotocol.RegisterXProtocolCodec(&bolt.XCodec{}); err != nil {
 			panic(err)
 		}
 	})
